@@ -164,6 +164,10 @@ def abs_statement(case, i, lines):
     if tag not in ABS_TAGS or not b or b == "UNDEF":
         return False
     j = int(b[1:])
+    seen = set()
+    while case["tags"][j] == "equ.lbl" and case["bind"][j] and case["bind"][j] != "UNDEF" and j not in seen:
+        seen.add(j)                       # an EQU that names another symbol is an alias of it
+        j = int(case["bind"][j][1:])
     return c02.TAGS[case["tags"][j]][3] != "equ"
 
 
@@ -225,8 +229,15 @@ def check_case(case):
                     elif b0 != b1:
                         bad("byte changed that is not an absolute label reference", b0.hex(), b1.hex())
                         break
+                def is_constant(k, depth=0):
+                    for l in lines0:
+                        f = fields(l)
+                        if f[0] == k and f[1] == "EQU":
+                            # an EQU that names another symbol of the program is as constant as that symbol
+                            return is_constant(f[2], depth + 1) if f[2] in ref["symbols"] and depth < 10 else True
+                    return False
                 for k, v in ref["symbols"].items():
-                    is_equ = any(fields(l)[0] == k and fields(l)[1] == "EQU" for l in lines0)
+                    is_equ = is_constant(k)
                     want = v if is_equ else v + arg
                     if out["symbols"].get(k) != want and not viol:
                         bad("symbol value does not follow the origin", "{}={:04X}".format(k, want), out["symbols"].get(k))
@@ -273,6 +284,10 @@ def check_case(case):
     elif tr == "suffix":
         _, mnem, optxt, kind, _ = c02.TAGS[arg]
         names = [fields(l)[0] for l in lines0 if fields(l)[0] and fields(l)[1] != "EQU"]
+        if arg == "equ.lbl" and not names:
+            names = [fields(l)[0] for l in lines0 if fields(l)[0]]
+            if not names:
+                return res            # ZNEW EQU ZNEW is invalid by itself
         target = names[0] if names else "ZNEW"
         extra = "ZNEW {} {}".format(mnem, optxt.replace("{L}", target))
         out = common.assemble_confirm(base + [extra])
